@@ -55,6 +55,10 @@ MixedCases == {[r |-> r, f |-> f, a |-> <<>>] : r \in MixedStrs, f \in {"len", "
          \cup {[r |-> r, f |-> "contains", a |-> <<c>>] : r \in MixedStrs, c \in {C(<<"a">>), C(<<"$e$", "a">>), C(<<"B", "$g$">>), C(<<"$u$">>), C(<<"$g$", "a">>)}}
          \cup {[r |-> r, f |-> "split", a |-> <<c>>] : r \in MixedStrs, c \in {C(<<"a">>), C(<<"$e$">>), C(<<" ">>)}}
          \cup {[r |-> r, f |-> "repeat", a |-> <<I(2)>>] : r \in MixedStrs}
+\* the default cut set of trim / trimLeft / trimRight is tab, space, LF, CR - other characters Unicode calls white space
+\* ($n$ a no-break space, $f$ a form feed) stay
+EdgeWs == {C(<<"$n$", "a", "$n$">>), C(<<"$f$", " ", "a", " ", "$f$">>), C(<<" ", "$n$", "a">>), C(<<"$n$">>)}
+EdgeCases == {[r |-> r, f |-> f, a |-> <<>>] : r \in EdgeWs, f \in {"trim", "trimLeft", "trimRight", "len"}}
 ContainsCases(n, m) == {[r |-> r, f |-> "contains", a |-> <<c>>] : r \in Strs(n), c \in Strs(m)}
 NumStrs == {C(<<"-">>), C(<<"+">>), C(<<".">>), C(<<"-", ".">>), C(<<"1", "-">>),
             C(<<"1", "2">>), C(<<"-", "5">>), C(<<"1", ".", "5">>), C(<<"a", "b">>), C(<<>>), C(<<"0">>), C(<<"+", "7">>), C(<<"1", " ">>)}
@@ -201,8 +205,8 @@ Cases == CASE Family = "twice" -> TwiceCases
            [] Family = "argvars" -> ArgVarCases
            [] Family = "conv" -> ConvCases
            [] Family = "convdata" -> ConvDataCases
-           [] Family = "str2" -> StrCases(2) \cup ContainsCases(2, 1) \cup DecCases \cup MixedCases
-           [] Family = "str3" -> StrCases(3) \cup ContainsCases(3, 2) \cup DecCases \cup MixedCases
+           [] Family = "str2" -> StrCases(2) \cup ContainsCases(2, 1) \cup DecCases \cup MixedCases \cup EdgeCases
+           [] Family = "str3" -> StrCases(3) \cup ContainsCases(3, 2) \cup DecCases \cup MixedCases \cup EdgeCases
            [] Family = "arr2" -> ArrCases(2) \cup SliceCases
            [] Family = "arr3" -> ArrCases(3) \cup SliceCases
            [] Family = "num" -> NumCases \cup WrongCases \cup DeepContains
